@@ -25,8 +25,18 @@ package primitives
 //@     invariant [C02] fan_indices: forall k int :: 0 <= k && k < len(tris) ==> 0 <= tris[k] && tris[k] <= c.Sides
 //@   loop 3:
 //@     invariant [C02] uv_rim: 0 <= sideIndex && sideIndex <= c.Sides && len(uvs) == c.Sides + 1 && fresh(uvs)
-//@ func Cone.ToMesh frameonly
-//@   props C01
+// Cone.ToMesh: Sides rim vertices and the apex, one triangle (rim i, apex, rim i+1) per side, the last one closing on rim 0;
+// positions and texture coordinates have Sides+1 entries.
+//@ func Cone.ToMesh
+//@   props C01 C02
+//@   returns r
+//@   ensures [C02] well_formed_lengths: modeling.sameLen(r)
+//@   ensures [C02] well_formed_indices: modeling.idxOK(r)
+//@   ensures [C02] well_formed_topology: modeling.topoOK(r)
+//@   ensures [C02] counts: len(r.indices) == 3 * c.Sides && has(r.v3Data, "Position") && len(r.v3Data["Position"]) == c.Sides + 1 && has(r.v2Data, "TexCoord") && len(r.v2Data["TexCoord"]) == c.Sides + 1 && r.topology == modeling.TriangleTopology
+//@   loop 1:
+//@     invariant [C02] fan: 0 <= i && i <= c.Sides && len(tris) == 3 * i && lastVert == c.Sides && len(verts) == c.Sides + 1 && len(uvs) == c.Sides + 1 && fresh(tris)
+//@     invariant [C02] fan_indices: forall k int :: 0 <= k && k < len(tris) ==> 0 <= tris[k] && tris[k] <= c.Sides
 //@ func rotate frameonly
 //@   props C01
 //@ func DefaultCubeUVs frameonly
